@@ -454,7 +454,8 @@ let run_tty u line =
     let timeout_none = get "timeout" "none" = "none" in
     let cols = nat_of_int (int_of_string (get "cols" "80")) in
     let helper = get "helper" "0" = "1" in
-    let vk = match get "validator" "none" with "brackets" -> VKBrackets | "script" -> VKScript | _ -> VKNone in
+    let vk = match get "validator" "none" with "brackets" -> VKBrackets | "script" -> VKScript | "scriptreq" -> VKScriptReq
+                                                     | "scriptinc" -> VKScriptInc | _ -> VKNone in
     let binds = List.filter_map (fun (k, v) ->
         if k = "bind" then
           (match words v with
